@@ -6,10 +6,12 @@ Sequential part: `Poly.Model.Pool` models `TXPool` (txnpool/common/transaction_p
 pool's RWMutex over its whole body, so a concurrent history is a sequence of these operations. The theorems hold
 for every operation sequence, every hash type, and every iteration order of the Go map (`order`).
 
-Server part: `Srv`/`AStep`/`FStep` model the admission bookkeeping of txnpool/proc by counts; theorems hold for
-every interleaving of the modelled steps. The strong capacity bound demanded by the property is stated in full
-(`CapacityRespected`) and is *refuted* for the model (`capacity_not_respected`); what is proved instead is the
-weaker bound `pool_bound_partial`.
+Server part: `Srv` with `AStep` / `RStep` / `FStep` model the bookkeeping of txnpool/proc by counts; theorems hold for
+every interleaving of the modelled steps. The capacity bound is proved for the admission fragment
+(`capacity_respected_admission`, after the `fix:` that counts pending transactions in the capacity test). For the
+whole server the bound demanded by the property is stated in full (`CapacityRespected`) and is *refuted* for the
+model: block verification ignores the capacity (`block_verification_unbounded`) and the re-verification after a
+saved block opens a window in which the test sees an empty pool (`reverify_window_breaks_bound`).
 -/
 namespace Poly.Props.C37
 open Poly.Model.Pool
@@ -201,23 +203,69 @@ theorem capacity_not_respected (C L : Nat) : ¬ CapacityRespected C L := by
 capacity test in between sees neither; a full pool plus one admitted transaction is reachable without any block
 verification (fill to `C`; `Remain`; one transaction passes the test and takes a slot; all are re-queued and come
 back; the admitted one lands). -/
-theorem reverify_window_breaks_bound (C L : Nat) (hL : 0 < L) :
+theorem reverify_window_breaks_bound (C L : Nat) (hC : 0 < C) (hL : 0 < L) :
     ∃ s, Reach (RStep C L) (Srv.init L) s ∧ s.pool = C + 1 := by
   have r1 : Reach (RStep C L) (Srv.init L) ⟨C, 0, 0, 0, 0, L, none, false⟩ :=
     (reach_fill (C := C) (L := L) hL C (Nat.le_refl C)).mono (fun a b h => RStep.adm a b h)
-  have s2 : RStep C L ⟨C, 0, 0, 0, 0, L, none, false⟩ ⟨0, 0, 0, 0, 0 + C, L, none, false⟩ := RStep.remain _
-  have s3 : RStep C L ⟨0, 0, 0, 0, 0 + C, L, none, false⟩ ⟨0, 0, 0, 0, 0 + C, L, some 0, false⟩ :=
+  have s2 : RStep C L ⟨C, 0, 0, 0, 0, L, none, false⟩ ⟨0, 0, 0, 0, C, L, none, false⟩ := by
+    simpa using RStep.remain (C := C) (L := L) ⟨C, 0, 0, 0, 0, L, none, false⟩
+  have s3 : RStep C L ⟨0, 0, 0, 0, C, L, none, false⟩ ⟨0, 0, 0, 0, C, L, some 0, false⟩ :=
     RStep.adm _ _ (AStep.snapshot _ rfl rfl)
-  have s4 : RStep C L ⟨0, 0, 0, 0, 0 + C, L, some 0, false⟩ ⟨0, 0, 0, 0, 0 + C, L, none, true⟩ := by
-    by_cases hC : 0 < C
-    · exact RStep.adm _ _ (AStep.checkOk _ 0 rfl (by simpa using hC))
-    · -- C = 0: nothing is ever admitted; the statement is proved through the other branch below
-      exact absurd rfl (by
-        intro (_ : (0 : Nat) = 0)
-        exact hC (by
-          -- unreachable: handled by the case split on C before using s4
-          sorry))
-  sorry
+  have s4 : RStep C L ⟨0, 0, 0, 0, C, L, some 0, false⟩ ⟨0, 0, 0, 0, C, L, none, true⟩ :=
+    RStep.adm _ _ (AStep.checkOk _ 0 rfl (by simpa using hC))
+  have s5 : RStep C L ⟨0, 0, 0, 0, C, L, none, true⟩ ⟨0, 1, 0, 0, C, L - 1, none, false⟩ :=
+    RStep.adm _ _ (AStep.take _ rfl hL)
+  have r6 : Reach (RStep C L) ⟨0, 1, 0, 0, C, L - 1, none, false⟩ ⟨0, 1, 0, C, 0, L - 1, none, false⟩ := by
+    simpa using requeue_many (C := C) (L := L) 0 C 0 1 (L - 1) false
+  obtain ⟨sl', r7⟩ := back_many (C := C) (L := L) 0 C 1 (L - 1)
+  have s8 : RStep C L ⟨0 + C, 1, 0, 0, 0, sl', none, false⟩ ⟨0 + C + 1, 0, 1, 0, 0, sl', none, false⟩ :=
+    RStep.adm _ _ (AStep.land _ (by simp))
+  refine ⟨_, (((((r1.step _ _ s2).step _ _ s3).step _ _ s4).step _ _ s5).trans r6 |>.trans r7).step _ _ s8, ?_⟩
+  simp
+
+theorem capacity_not_respected_without_blocks (C L : Nat) (hC : 0 < C) (hL : 0 < L) :
+    ¬ CapacityRespectedWithoutBlocks C L := by
+  intro h
+  obtain ⟨s, hr, hs⟩ := reverify_window_breaks_bound C L hC hL
+  have := h s hr
+  omega
+
+/-- The macro-steps executed by the driver against the real server are runs of the step relation (so everything
+proved for all interleavings covers them): each executable step is an instance of its rule. -/
+theorem executable_steps_sound (C L : Nat) (s t : Srv) :
+    (doSnapshot s = some t → AStep C L s t) ∧ (doCheck C s = some t → AStep C L s t) ∧
+    (doTake s = some t → AStep C L s t) ∧ (doLand s = some t → AStep C L s t) ∧
+    (doRelease L s = some t → AStep C L s t) ∧ (doRemain s = some t → RStep C L s t) ∧
+    (doRequeue s = some t → RStep C L s t) ∧ (doBack L s = some t → RStep C L s t) ∧
+    (∀ k, doBlock k s = some t → FStep C L s t) := by
+  refine ⟨?_, ?_, ?_, ?_, ?_, ?_, ?_, ?_, ?_⟩
+  · intro h; unfold doSnapshot at h; split at h
+    · rename_i hg; injection h with h; subst h; exact AStep.snapshot _ hg.1 hg.2
+    · cases h
+  · intro h; unfold doCheck at h
+    split at h
+    · rename_i q hq
+      split at h
+      · rename_i hlt; injection h with h; subst h; exact AStep.checkOk _ q hq hlt
+      · rename_i hlt; injection h with h; subst h; exact AStep.checkFull _ q hq hlt
+    · cases h
+  · intro h; unfold doTake at h; split at h
+    · rename_i hg; injection h with h; subst h; exact AStep.take _ hg.1 hg.2
+    · cases h
+  · intro h; unfold doLand at h; split at h
+    · rename_i hg; injection h with h; subst h; exact AStep.land _ hg
+    · cases h
+  · intro h; unfold doRelease at h; split at h
+    · rename_i hg; injection h with h; subst h; exact AStep.release _ hg
+    · cases h
+  · intro h; unfold doRemain at h; injection h with h; subst h; exact RStep.remain _
+  · intro h; unfold doRequeue at h; split at h
+    · rename_i hg; injection h with h; subst h; exact RStep.requeue _ hg
+    · cases h
+  · intro h; unfold doBack at h; split at h
+    · rename_i hg; injection h with h; subst h; exact RStep.back _ hg
+    · cases h
+  · intro k h; unfold doBlock at h; injection h with h; subst h; exact FStep.block _ k
 
 /-! ### Non-vacuity -/
 
@@ -230,6 +278,9 @@ example :
     getTxPool p p true 2 5 = ([⟨"a", [⟨3, 1, 0⟩]⟩, ⟨"c", [⟨5, 1, 0⟩]⟩], [⟨"b", [⟨1, 1, 0⟩]⟩]) := by
   decide
 
-example : ∃ s, Reach (AStep 3 2) (Srv.init 2) s ∧ s.pool = 5 := pool_bound_tight 3 2 (by omega) (by omega)
+example : ∃ s, Reach (RStep 3 2) (Srv.init 2) s ∧ s.pool = 4 := reverify_window_breaks_bound 3 2 (by omega) (by omega)
+
+example : (fill 3 2 5 (Srv.init 2)).pool = 3 ∧ (releaseAll 2 (submitHeld 3 2 (fill 3 2 2 (Srv.init 2)))).pool = 3 := by
+  decide
 
 end Poly.Props.C37
